@@ -267,11 +267,14 @@ def shard_main(prop, tier, seed, k, n, outfile, replay=None, budget=None):
             my = [replay]
         else:
             allc = mod.cases(tier, seed)
+            # deterministic shuffle: balances the shards and makes a time-capped run a representative subset of all case families
+            random.Random(f"{seed}/{prop}/{tier}").shuffle(allc)
             my = [c for i, c in enumerate(allc) if i % n == k]
         reach.start()
         for c in my:
             if budget and time.time() - t0 > budget:
-                ctx.inconclusive(f"shard {k}: wall-clock budget {budget}s exhausted after {ctx.cases_run}/{len(my)} cases")
+                # the budget is a workload cap (not a verdict): the parent decides from the monitor counts and the fraction run
+                ctx.note("cases_not_run_time_cap", len(my) - ctx.cases_run)
                 break
             ctx.case = c
             _, _, s = case_rng(seed, prop, json.dumps(jsonable(c), sort_keys=True))
@@ -301,6 +304,7 @@ def shard_main(prop, tier, seed, k, n, outfile, replay=None, budget=None):
     d = ctx.dump()
     d["reach"] = reach.dump()
     d["status"] = status
+    d["cases_total"] = len(my) if status == "ok" else 0
     d["wall_s"] = time.time() - t0
     with open(outfile, "w") as f:
         json.dump(d, f)
@@ -359,7 +363,7 @@ def parent_main(prop, tier, seed, jobs, replay_file=None, shard_timeout=None):
             procs.append((k, outfile, subprocess.Popen(cmd, cwd=VERIF, env=env, stdout=subprocess.PIPE, stderr=subprocess.STDOUT)))
 
     agg = {"monitors": {}, "nontriv": set(), "samples": [], "tables": {}, "notes": {}, "violations": [],
-           "inconclusive": [], "reach": {}, "cases_run": 0}
+           "inconclusive": [], "reach": {}, "cases_run": 0, "cases_total": 0}
     for k, outfile, p in procs:
         try:
             left = max(5, shard_timeout - (time.time() - t0))
@@ -390,6 +394,7 @@ def parent_main(prop, tier, seed, jobs, replay_file=None, shard_timeout=None):
         for name, lines in d["reach"].items():
             agg["reach"].setdefault(name, set()).update(lines)
         agg["cases_run"] += d["cases_run"]
+        agg["cases_total"] += d.get("cases_total", d["cases_run"])
 
     # ---- classify violations
     known = [f for f in load_known() if f.get("property") == prop]
@@ -406,6 +411,8 @@ def parent_main(prop, tier, seed, jobs, replay_file=None, shard_timeout=None):
     if isinstance(required, dict) and "quick" in required and isinstance(required["quick"], dict):
         required = required[tier]
     if not replay_file:
+        if agg["cases_run"] < 0.5 * agg["cases_total"]:
+            agg["inconclusive"].append(f"time cap ({budget}s per shard) reached after only {agg['cases_run']} of {agg['cases_total']} cases")
         for sub, mn in required.items():
             if agg["monitors"].get(sub, 0) < mn:
                 agg["inconclusive"].append(f"monitor '{sub}' evaluated {agg['monitors'].get(sub, 0)} < {mn} times")
@@ -440,6 +447,7 @@ def parent_main(prop, tier, seed, jobs, replay_file=None, shard_timeout=None):
             "samples": agg["samples"] or [{"note": "no sample recorded"}],
             "exhaustive": bool(getattr(mod, "EXHAUSTIVE", {}).get(tier, False)) if isinstance(getattr(mod, "EXHAUSTIVE", False), dict) else bool(getattr(mod, "EXHAUSTIVE", False)),
             "cases_run": agg["cases_run"],
+            "cases_generated": agg["cases_total"],
             "shards": nsh,
             "monitor_evaluations": agg["monitors"],
             "coverage_tables": agg["tables"],
@@ -464,6 +472,8 @@ def parent_main(prop, tier, seed, jobs, replay_file=None, shard_timeout=None):
     # ---- verdict
     print(f"[{prop}] tier={tier} seed={seed} shards={nsh} cases={agg['cases_run']} evaluations={evaluations} "
           f"distinct_nontrivial={len(agg['nontriv'])} wall={wall:.1f}s")
+    if agg["cases_run"] < agg["cases_total"]:
+        print(f"    workload capped by the time budget ({budget}s per shard): ran {agg['cases_run']} of {agg['cases_total']} generated cases")
     for sub, c in sorted(agg["monitors"].items()):
         print(f"    monitor {sub}: {c} evaluations")
     for name, lines in sorted(agg["reach"].items()):
